@@ -394,14 +394,16 @@ def pipe_bytes(k: int, bom: bool, b1: int, at: int) -> bool:
     body = BYTES[k]
     at = min(at, len(body))
     data = (b'\xef\xbb\xbf' if bom else b'') + body[:at] + bytes([b1]) + body[at:]
-    if b'coding' in data:
-        # with a declaration: CPython's rule is the oracle (files CPython cannot decode are outside the claim)
-        from vp.concrete import _ref_decode
-        want = _ref_decode(data)
-        if want is None:
-            return True
-    else:
-        want = data.decode('utf-8')      # keeps the BOM as U+FEFF
+    # oracle: CPython's rule (tokenize.detect_encoding + decode; the BOM is kept as U+FEFF); files CPython cannot
+    # decode are outside the claim; so is a lone CR in the first two lines (Lib/tokenize.py splits lines at \\n only,
+    # the C tokenizer and parso also at \\r - see DESIGN 4/C15)
+    from vp.concrete import _ref_decode
+    head = data.split(b'\n', 2)[:2]
+    if any(b'\r' in l.rstrip(b'\r') for l in head) or (b1 == 13 and at <= len(b'\n'.join(head))):
+        return True
+    want = _ref_decode(data)
+    if want is None:
+        return True
     g = grammar(4)
     m = g.parse(data)
     if m.get_code() != want:
